@@ -10,7 +10,7 @@ VERIF = os.path.dirname(os.path.dirname(os.path.abspath(__file__)))
 # reverse of a fix commit -> properties whose check reported the defect on the unchanged tree
 # reverting this fix removes a struct field that the contracts of the repaired iterator name: the extracted text no
 # longer type-checks against them and the check answers UNDECIDED (exit 2), which is accepted for this one case
-EXPECTED_UNDECIDED = {"revert-c200e8a"}
+EXPECTED_UNDECIDED = set()   # (the D1 revert used to be undecided: now reported through the bounded stand-in)
 FIXES = {
     "c3b3122": ["C10"], "4d75919": ["C07"], "c10e3b8": ["C07"], "c200e8a": ["C09"],
     "183df72": ["C13"], "e817766": ["C13"], "29b186e": ["C15"], "1a58af3": ["C15"], "3a83d9d": ["C10"],
